@@ -29,6 +29,7 @@ func c10(r *core.Run) {
 
 	r.Rule("T1", "default symmetry: in the change handler the configured default replaces a nil before/after value both when a transformer is set and when it is not (the get handler serves the default for a missing value in both cases)", 2)
 	r.Rule("T2", "transform symmetry: the get handler passes the stored value through Transformer.Transform when a transformer is set, and the change handler does so for the before and for the after value", 3)
+	r.Rule("G1", "responses and events leave in store order: the get handler sends its response while its read transaction is still open (the Close is deferred, or no reply follows it); change events are published under the writer's transaction, so an event can then never overtake a response built from an older value", 1)
 	r.Rule("S1", "event selection: CreateEvent is invoked only on the before==nil edge with the after representation, DeleteEvent only on the after==nil edge (before non-nil); the resource id is IDToRID of the after, else the before representation", 3)
 	r.Rule("B1", "before-values are what get served (shared with C11.K2): the value a badgerstore write transaction caches is dead or refreshed by every mutation; the change handler diffs the reported before-value, so a stale one yields events relative to a state the client no longer holds", 1)
 	r.Rule("D1", "model diff: the delete action is stored exactly on the not-present edge of the lookup in the new map, a key is reported only where it is new or Value.Equal is false, and the resulting map is what ChangeEvent receives", 3)
@@ -63,6 +64,44 @@ func c10(r *core.Run) {
 	if get == nil || chg == nil {
 		r.Unres("T1", "storeHandler.<get>/<change>", "cannot resolve the get handler (takes a GetRequest) or the change handler (id, before, after)")
 		return
+	}
+	// ---- G1 ----------------------------------------------------------------
+	// the get response is published while the read transaction is open: the store's change events
+	// are published under the writer's transaction, so for one resource responses and events leave
+	// in store order; a Close before the reply lets an event overtake a stale response
+	{
+		unit := p.Helpers(get)
+		isReply := func(c ssa.CallInstruction) bool {
+			cc := c.Common()
+			return cc.IsInvoke() && core.TypeName(cc.Value.Type()) == "GetRequest" && cc.Value == ssa.Value(get.Params[1]) &&
+				cc.Method.Type().(*types.Signature).Results().Len() == 0 && cc.Method.Name() != "Timeout"
+		}
+		nClose := 0
+		for _, h := range unit {
+			for _, c := range core.Calls(h) {
+				cc := c.Common()
+				if !cc.IsInvoke() || cc.Method.Name() != "Close" || !strings.HasSuffix(core.TypeName(cc.Value.Type()), "ReadTxn") {
+					continue
+				}
+				nClose++
+				if core.IsDefer(c) {
+					r.OK("G1", core.FuncName(h), "read-txn-open-until-replied", p.InstrPos(c), "the read transaction is closed by a deferred call: after every reply")
+					continue
+				}
+				late := ""
+				for _, h2 := range unit {
+					for _, c2 := range core.Calls(h2) {
+						if isReply(c2) && p.ReachesIn(get, c, c2) {
+							late = cc.Method.Name() + " then " + c2.Common().Method.Name() + " at " + p.InstrPos(c2)
+						}
+					}
+				}
+				r.Check(late == "", "G1", core.FuncName(h), "read-txn-open-until-replied", p.InstrPos(c), "no reply follows the close of the read transaction", "the read transaction is closed before the response is sent ("+late+"): a writer can commit and publish its event in between, the event overtakes the stale response and the client keeps the old value for good")
+			}
+		}
+		if nClose == 0 {
+			r.Bad("G1", core.FuncName(get), "read-txn-open-until-replied", p.Pos(get.Pos()), "the get handler never closes its read transaction")
+		}
 	}
 	isTransCond := func(e edgeCond) (string, bool) {
 		ci := core.Cond(e.If.Cond)
@@ -200,38 +239,51 @@ func c10(r *core.Run) {
 	// ---- T1 ----------------------------------------------------------------
 	defPolarities := func(v ssa.Value) map[string]bool {
 		out := map[string]bool{}
-		seen := map[ssa.Value]bool{}
-		var walk func(v ssa.Value, d int)
-		walk = func(v ssa.Value, d int) {
-			phi, ok := v.(*ssa.Phi)
-			if !ok || seen[v] || d > 8 {
+		record := func(edges []edgeCond) {
+			pol := "any"
+			for _, ed := range edges {
+				if s, ok := isTransCond(ed); ok {
+					pol = s
+				}
+			}
+			out[pol] = true
+		}
+		var walk func(v ssa.Value, use ssa.Instruction, ctx []edgeCond, d int)
+		walk = func(v ssa.Value, use ssa.Instruction, ctx []edgeCond, d int) {
+			// (no global visited set: a helper reached in two contexts contributes once per context)
+			if d > 6 {
 				return
 			}
-			seen[v] = true
-			for i, e := range phi.Edges {
-				mayBeDef := isDefLoad(e)
-				if _, isPhi := e.(*ssa.Phi); !isPhi && !mayBeDef {
-					for _, lf := range valueLeaves(e, nil, 0) {
-						if isDefLoad(lf.V) {
-							mayBeDef = true
-						}
-					}
+			for _, src := range phiSources(v) {
+				edges := append([]edgeCond{}, ctx...)
+				if src.Pred != nil {
+					edges = append(edges, srcEdges(nil, src)...)
+				} else if use != nil {
+					edges = append(edges, dominatingEdges(use)...)
 				}
-				if mayBeDef {
-					pred := phi.Block().Preds[i]
-					pol := "any"
-					for _, ed := range dominatingEdges(pred.Instrs[len(pred.Instrs)-1]) {
-						if s, ok := isTransCond(ed); ok {
-							pol = s
-						}
-					}
-					out[pol] = true
+				if isDefLoad(src.V) {
+					record(edges)
 					continue
 				}
-				walk(e, d+1)
+				// the representation may be built by a private helper (value -> served form): its
+				// returns are sources too, under the conditions that hold inside the helper
+				if c, ok := core.Strip(src.V).(*ssa.Call); ok {
+					cal := c.Common().StaticCallee()
+					if cal != nil && len(cal.Blocks) > 0 && cal.Pkg == chg.Pkg && cal.Signature.Results().Len() == 1 {
+						for _, ret := range core.Returns(cal) {
+							walk(ret.Results[0], ret, edges, d+1)
+						}
+						continue
+					}
+				}
+				for _, lf := range valueLeaves(src.V, nil, 0) {
+					if lf.V != src.V && isDefLoad(lf.V) {
+						record(edges)
+					}
+				}
 			}
 		}
-		walk(v, 0)
+		walk(v, nil, nil, 0)
 		return out
 	}
 	// does the get handler serve the default at all?
